@@ -541,7 +541,7 @@ func cmdCheck(args []string) int {
 				widx++
 				idx := widx
 				mu.Unlock()
-				j := &job{Property: id, Engine: p.Engine, Tier: tier, Seed: seed, From: c.from, To: c.to, ViolDir: violDir, Known: kn, Group: p.Group,
+				j := &job{Property: id, Engine: p.Engine, Tier: tier, Seed: seed, From: c.from, To: c.to, ViolDir: violDir, Known: kn, Group: p.Group, NoShrink: os.Getenv("VERIF_NOSHRINK") != "",
 					MaxSecs: int(time.Until(deadline).Seconds()) + 1}
 				r := runWorker(b, j, idx, 1+idx%4, chunkTimeout)
 				mu.Lock()
